@@ -8,6 +8,11 @@ props = [json.loads(l) for l in open(V / "properties.jsonl")]
 
 # id -> (category, technique, level text, level note, design ref)
 CHECKS = {
+ "C10": ("model_checking",
+         "TLA+ state machine of the interval adaptation, bisection loop and coordinate driver (Bisection.tla) with the root as an adversary, model-checked with TLC; every maximal behaviour replayed through the public inverter on a family of increasing functions; recorded (rank, sign, exact position) traces of randomised real runs validated by TLC against Trace_Bisection.tla",
+         "Because the search sees the function only through sign f(p), TLC's adversary construction covers every root (dyadic or not) up to 2^AMax widths away and every (max_iter, tol) of the grid: Bracket, Accurate, iteration bounds and termination are checked in every state. The code is bound to it in both directions: behaviours -> real runs (points compared one by one in exact dyadic arithmetic; accuracy judged at generous max_iter), real randomised runs -> trace validation.",
+         "Functions are continuous and strictly increasing (recorded signs are checked to be monotone). float64. Accuracy is judged only for runs that max_iter cannot have cut short; evaluation-point equality, exact-hit return and bracket discipline are implementation-layer (drift notes, not violations).",
+         "DESIGN.md 4.3, 5 (C10)"),
  "C15": ("model_checking",
          "TLA+ state machine of fit_to_data (FitToData.tla, Batching.tla) model-checked with TLC; recorded event traces of the real fit_to_data validated against Trace_FitToData.tla by TLC; TLC-enumerated helper cases replayed into get_batches/train_val_split",
          "TLC exhausts the data-flow model (every split, every batch choice, symmetric rows, every batch size) for the clauses of C15 as invariants; every recorded execution of the real loop over a grid of (n, batch_size, val_prop, condition, epochs) is accepted or rejected by TLC against the same clauses at every step. Right level: the property is a statement about every history of a loop with state.",
